@@ -92,7 +92,11 @@ class Ctx:
             counts[o["rule"]] = counts.get(o["rule"], 0) + 1
         for rid in self.rules:
             counts.setdefault(rid, 0)
-        low = [(r, counts[r], f) for r, f in self.floors.items() if counts[r] < f]
+        # a rule that already reports a failed obligation may stop before emitting the rest: that is a violation, not a lost extractor
+        # (a listed known finding does not count: it fails on the unchanged tree too)
+        open_keys = {k["key"] for k in load_known().get("open", []) if k["property"] == self.prop}
+        failed = {f["rule"] for f in self.findings if Ctx.key(f) not in open_keys}
+        low = [(r, counts[r], f) for r, f in self.floors.items() if counts[r] < f and r not in failed]
         if low:
             raise AnalysisError(
                 "rule instance count below floor (extractor no longer sees the code it was confirmed on): "
